@@ -521,14 +521,58 @@ def check_c12(ctx):
             pts = [x for x in pts if x <= len(data)]
             pieces = [data[a:b] for a, b in zip([0] + pts, pts + [len(data)])]
             lines.append('resume ' + ','.join(x.hex() for x in pieces)); meta.append(('resume', log, data))
+    # the same through ONE TextOutputStream fed in pieces (TextOutputStream.cpp): every event that lies wholly inside a piece
+    # must be on the output when the write of that piece ends (normally or with the error for the incomplete entry)
+    tfmt, tdfmt = b'%S %n %m|%r\n', b'%Y'
+    nto = cases_count(ctx, 25, 300)
+    for li in range(nto):
+        log = [p for p in G.rand_log(rng, n_entries=rng.choice([2, 4, 7, 12]))]
+        data = G.frames(log)
+        bounds = [0]
+        for p_ in log:
+            bounds.append(bounds[-1] + 4 + len(p_))
+        for b in bounds:
+            if b == 0:
+                continue
+            lines.append('textout %s %s %s' % (tfmt.hex(), tdfmt.hex(), data[:b].hex())); meta.append(('to-whole', b, b == bounds[1]))
+        cuts = sorted(set(rng.randrange(len(data) + 1) for _ in range(10))) if ctx.tier == 'quick' else range(len(data) + 1)
+        for n in cuts:
+            lines.append('textout %s %s %s,%s' % (tfmt.hex(), tdfmt.hex(), data[:n].hex(), data[n:].hex()))
+            meta.append(('to-cut', n, max(b for b in bounds if b <= n), n in bounds))
     impl, model, mism = diff_streams(ctx, 'prefix+resume', exe, lines)
     prop_fail, nontrivial = set(), set()
+    whole_text = {}
+    for i, m in enumerate(meta):
+        if i >= len(impl) or m[0] not in ('to-whole', 'to-cut'):
+            continue
+        kv = parse_kv(impl[i])
+        if m[0] == 'to-whole':
+            if m[2]:
+                whole_text = {0: ''}
+            whole_text[m[1]] = kv.get('text', '')
+        else:
+            n, b, onb = m[1], m[2], m[3]
+            want = whole_text.get(b)
+            errs = kv.get('errs', '').split(',')
+            bad = None
+            if want is not None and not kv.get('text', '').startswith(want):
+                bad = 'the events that lie wholly inside the first piece are not all on the output'
+            elif onb and errs and errs[0] != '-' and want is not None and whole_text.get(n) is not None and 'errs=-' in impl[i - 0] and False:
+                bad = None
+            if bad:
+                prop_fail.add(i)
+                ctx.violation('textout-%s' % hashlib.sha256(lines[i].encode()).hexdigest()[:10], 'C12 (TextOutputStream): ' + bad,
+                              {'kind': 'input', 'input_line': lines[i][:20000], 'cut': n, 'impl': impl[i][:4000], 'text_of_the_whole_entries_before_the_cut': want})
+            elif not onb:
+                nontrivial.add(lines[i])
     full_items = None
     for i, m in enumerate(meta):
         if i >= len(impl):
             break
         kv = parse_kv(impl[i])
         items = parse_items(kv.get('items', ''))
+        if m[0] in ('to-whole', 'to-cut'):
+            continue
         if m[0] == 'full':
             full_items = items
             full_log = m[1]
